@@ -103,10 +103,11 @@ class Ev:
 class Model:
     """per function: adjacency-borrow environment + classification of nodes into neutral events"""
 
-    def __init__(self, facts, be, key):
+    def __init__(self, facts, be, key, depth=0):
         self.facts = facts
         self.be = be
         self.key = key
+        self.depth = depth
         self.f = facts['fns'][key]
         self.body = self.f['hir']
         self.nhd = {}      # local id -> source vertex expr of the adjacency it borrows
@@ -143,6 +144,9 @@ class Model:
                     (self.nhd if g[0] == 'edata' else self.vslot)[ids[0]] = g[1]
                 elif k == 'Let' and n['pat'].get('k') == 'Bind':
                     self.alias[n['pat']['id']] = n['init']
+                    i0 = peel(n['init'])
+                    if i0.get('k') == 'MethodCall' and i0['name'] == 'len' and not i0['args'] and selffield(i0['recv']) in ('vdata', 'edata') and 'Mut' not in (n['pat'].get('mode') or ''):
+                        _LEN_ALIAS[n['pat']['id']] = True
                     v = self._adj_value(n['init'])
                     if v is not None:
                         self.adjcopy[n['pat']['id']] = v
@@ -284,6 +288,33 @@ class Model:
             fld = selffield(recv)
             if n.get('callee', '').endswith('Graph::remove_half_edge') and hir.local(recv) and hir.local(recv)[0] == 'self':
                 return [Ev('half-', n, s=peel(n['args'][0]), t=peel(n['args'][1]), via='remove_half_edge')]
+            cal = n.get('callee') or ''
+            if cal.startswith(self.be + '::') and cal in self.facts['fns'] and hir.local(recv) and hir.local(recv)[0] == 'self' and self.depth < 2:
+                # a private helper of the back end: its events, with its parameters replaced by the arguments of this call
+                hf = self.facts['fns'][cal]
+                hm = Model(self.facts, self.be, cal, depth=self.depth + 1)
+                hm.total = getattr(self, 'total', False)
+                best = []
+                for hp in paths.effect_paths(hir.stmts_of(hm.body), hm.is_event):
+                    if hp.end == 'diverge':
+                        continue
+                    evs = [x for y in hp.events if not isinstance(y, tuple) for x in hm.classify(y)]
+                    if any(isinstance(y, tuple) for y in hp.events):
+                        evs.append(Ev('unknown', n, what='loop inside the helper %s' % cal.rsplit('::', 1)[1]))
+                    if len(evs) > len(best):
+                        best = evs
+                prm = [p_['id'] for p_ in hf['params'] if p_.get('k') == 'Bind' and p_['name'] != 'self']
+                sub = dict(zip(prm, n['args']))
+
+                def subst(x):
+                    if isinstance(x, dict):
+                        l_ = hir.local(peel(x))
+                        if l_ and l_[1] in sub:
+                            return peel(sub[l_[1]])
+                    return x
+                out = [Ev(e_.kind, n, **{k_: subst(v_) for k_, v_ in e_.a.items()}) for e_ in best if e_.kind != 'borrow']
+                if out:
+                    return out
             if fld in ('vdata', 'edata'):
                 if self.be == VEC:
                     if nm == 'push':
@@ -560,9 +591,17 @@ def _lin(e):
     return e, 0
 
 
+_LEN_ALIAS = {}      # local id -> True for `let n = self.vdata.len()` (filled per Model; ids are unique per function)
+
+
 def _is_len(e):
     e = peel(e)
-    return e is not None and e.get('k') == 'MethodCall' and e['name'] == 'len' and not e['args'] and selffield(e['recv']) in ('vdata', 'edata')
+    if e is None:
+        return False
+    l = hir.local(e)
+    if l and _LEN_ALIAS.get(l[1]):
+        return True
+    return e.get('k') == 'MethodCall' and e['name'] == 'len' and not e['args'] and selffield(e['recv']) in ('vdata', 'edata')
 
 
 def _cond_lt_len(conds, x):
@@ -817,13 +856,19 @@ def d1_method(ck, facts, be, m, stats):
                     sh.append('loop{%s}' % ', '.join(sorted(repr(e) for e in ievs if e.kind != 'borrow')))
         if sh:
             shapes.add(' '.join(sh))
+    unrec = []
     for node, what in model.unclaimed():
-        msgs.append('unrecognised write to the representation: %s (line %d)' % (what, hir.line(node)))
+        unrec.append('unrecognised write to the representation: %s (line %d)' % (what, hir.line(node)))
+    unrec += [x for x in msgs if 'unrecognised' in x or 'not a recognised shape' in x or 'unrecognised way' in x or 'positions of the new empty slots are unknown' in x]
     stats['methods'] += 1
     stats['paths'] += n_paths
     if shapes:
         stats['mutators'] += 1
-    ck.ob('R-PAIR-repr', short, not msgs, ck.site(key), '; '.join(msgs), sample={'paths': n_paths, 'events': sorted(shapes)[:4]} if shapes else None)
+    if unrec:
+        # the abstraction map does not cover an operation of this method: the pairing counts are unreliable, nothing about it is decided
+        ck.ob3('R-PAIR-repr', short, None, ck.site(key), 'the method updates the representation with an operation the abstraction map does not cover (%s); its pairing clauses are not decided' % '; '.join(unrec[:2]))
+    else:
+        ck.ob('R-PAIR-repr', short, not msgs, ck.site(key), '; '.join(msgs), sample={'paths': n_paths, 'events': sorted(shapes)[:4]} if shapes else None)
     return model, eps, shapes
 
 
@@ -1024,9 +1069,18 @@ def presence_on_err(facts, be):
                 if e['name'] in ('is_some', 'is_none') and r.get('k') == 'Index' and selffield(r['e']) == 'vdata' and is_v(r['i']):
                     if (e['name'] == 'is_some') == bool(c[2]) and _cond_lt_len(p.conds, peel(r['i'])) is True:
                         present = True
+        for c in p.conds:
+            if c[0] == 'nopat' and be == VEC and all((hir.pat_ctor(q) or '').endswith('Some') for q in c[1]):
+                # let Some(pos) = self.holes.iter().position(|h| h == v) else { return Err }   (v < len and v is not a hole)
+                pv = model._position_of(c[2])
+                if pv is not None and is_v(pv) and _cond_lt_len(p.conds, pv) is True:
+                    present = True
         if not present:
-            bad.append('Err is returned on the path [%s], which is not conditioned on the vertex being present' % '; '.join(p.cond_texts())[:140])
-    return (not bad and n > 0), ('; '.join(bad) if bad else ('no Err path' if n == 0 else '')), n
+            understood = all(c[0] == 'cond' and peel(c[1]).get('k') in ('Binary', 'MethodCall', 'Unary') for c in p.conds)
+            bad.append(('Err is returned on the path [%s], which is not conditioned on the vertex being present' % '; '.join(p.cond_texts())[:140], understood))
+    if bad and not all(u for _m, u in bad):
+        return None, 'the condition under which Err is returned is written in a form the rule does not understand: ' + '; '.join(m for m, _u in bad), n
+    return (not bad and n > 0), ('; '.join(m for m, _u in bad) if bad else ('no Err path' if n == 0 else '')), n
 
 
 def orientation(facts, be, m):
@@ -1260,62 +1314,80 @@ def pack_rule(facts, be_key, adt):
     res.append(('truncate', ok, 'vdata and edata are not both truncated to the number of kept vertices after the compaction loop'))
     hc = [e for s in st for x in hir.nodes(s) for e in model.classify(x) if e.kind == 'holes-clear']
     res.append(('holes', bool(hc), 'holes is not cleared although every empty slot is squeezed out: stale holes would be handed out by add_vertex and overwrite live vertices'))
-    # payload renaming: every neighbour id stored in edata goes through vtab, the edge type is kept
+    # payload renaming: every neighbour id stored in edata goes through vtab, the edge type is kept.  Recognised spellings (inside an iteration over self.edata):
+    #   *pair = (vtab[pair.0], pair.1)      pair.0 = vtab[pair.0]      *w = vtab[*w]  with (w, _) bound from the pair
     pay = []
     for n in hir.nodes(body):
         if n.get('k') != 'Assign':
             continue
-        lp = hir.place(n['l'])
-        l0 = peel(n['l'])
-        lt = None
-        if lp:
-            # *pair = (vtab[pair.0], pair.1)   |   pair.0 = vtab[pair.0]
-            for x in hir.nodes(body):
-                pass
-        rid = lp[0] if lp else None
-        if rid is None:
-            continue
-        bty = _binding_type(body, rid)
-        if bty is None or '(usize, graph::EType)' not in bty:
-            continue
-        proj = [p for p in lp[2] if p[0] == 'f']
-        it = tuple_items(n['r'])
-        if not proj and it and len(it) == 2:
-            x = _vtab_index(it[0], vtab_id)
-            good = x is not None and x.get('k') == 'Field' and x['name'] == '0' and hir.local(peel(x['e'])) and hir.local(peel(x['e']))[1] == rid
-            keep = peel(it[1])
-            good2 = keep.get('k') == 'Field' and keep['name'] == '1' and hir.local(peel(keep['e'])) and hir.local(peel(keep['e']))[1] == rid
-            pay.append((n, bool(good), bool(good2)))
-        elif proj == [('f', '0')]:
-            x = _vtab_index(n['r'], vtab_id)
-            good = x is not None and x.get('k') == 'Field' and x['name'] == '0' and hir.local(peel(x['e'])) and hir.local(peel(x['e']))[1] == rid
-            pay.append((n, bool(good), True))
-        else:
-            pay.append((n, False, False))
-    ok = len(pay) == 1 and pay[0][1] and pay[0][2]
-    msg = 'neighbour ids stored in edata are not rewritten as `(vtab[pair.0], pair.1)`' if not pay else ('the adjacency entries are rewritten, but not as (vtab[old neighbour], same edge type)' if not ok else '')
-    if ok:
-        # the rewrite sits in an iteration over all of self.edata, after the compaction loop, and not under an extra condition
-        n = pay[0][0]
-        over_edata = False
-        extra = []
+        over = None
         for par, slot in hir.ancestors(n, pm):
             if par.get('k') == 'For':
                 root, ms = chain(par['iter'])
-                if selffield(root) == 'edata' and [m['name'] for m in ms] == ['iter_mut']:
-                    over_edata = True
+                if selffield(root) == 'edata':
+                    over = par
                     break
-                extra.append('for')
-            if par.get('k') == 'If' and peel(par['cond']).get('k') != 'LetCond':
-                extra.append('if')
+        if over is None:
+            continue
+        lp = hir.place(n['l'])
+        if not lp:
+            continue
+        rid = lp[0]
+        projf = [p_ for p_ in lp[2] if p_[0] == 'f']
+        it = tuple_items(n['r'])
+        good = keep = None
+        if it and len(it) == 2 and not projf:
+            x = _vtab_index(it[0], vtab_id)
+            good = x is not None and x.get('k') == 'Field' and x['name'] == '0' and hir.local(peel(x['e'])) and hir.local(peel(x['e']))[1] == rid
+            k2 = peel(it[1])
+            keep = k2.get('k') == 'Field' and k2['name'] == '1' and hir.local(peel(k2['e'])) and hir.local(peel(k2['e']))[1] == rid
+        else:
+            x = _vtab_index(n['r'], vtab_id)
+            if x is None:
+                continue          # not a renaming assignment
+            if projf == [('f', '0')]:
+                good = x.get('k') == 'Field' and x['name'] == '0' and hir.local(peel(x['e'])) and hir.local(peel(x['e']))[1] == rid
+                keep = True
+            elif not projf:
+                # *w = vtab[*w] : w must be the FIRST component of the adjacency pair (bound by a tuple pattern from the element)
+                lx = hir.local(x)
+                good = bool(lx and lx[1] == rid)
+                first = None
+                for m2 in hir.nodes(body):
+                    pat = m2.get('pat') if m2.get('k') in ('For', 'Let', 'LetCond') else None
+                    pats = [pat] if pat else ([p2 for p2 in m2['params']] if m2.get('k') == 'Closure' else [])
+                    for p2 in pats:
+                        q = p2
+                        while q and q.get('k') == 'Ref':
+                            q = q['sub']
+                        if q and q.get('k') == 'Tuple' and len(q['sub']) == 2:
+                            b0 = [i for _n, i in hir.bindings(q['sub'][0])]
+                            b1 = [i for _n, i in hir.bindings(q['sub'][1])]
+                            if rid in b0:
+                                first = True
+                            elif rid in b1:
+                                first = False
+                if first is None:
+                    good = None
+                elif first is False:
+                    good = False
+                keep = True
+        pay.append((n, good, keep, over))
+    if not pay:
+        res.append(('rename/edata', None if any(selffield(chain(x['iter'])[0]) == 'edata' for x in hir.find(body, 'For') if x is not comp) or 'edata' in hir.pp(body) else False,
+                    'no rewrite of the neighbour ids stored in edata through the renaming table was recognised'))
+    else:
+        n, good, keep, over = pay[0]
         ti = top_index(n)
-        if not over_edata:
-            ok, msg = False, 'the neighbour rewrite does not iterate over all of `self.edata.iter_mut()`'
-        elif extra:
-            ok, msg = False, 'the neighbour rewrite is under an extra condition / loop'
+        if len(pay) != 1 or good is None:
+            res.append(('rename/edata', None, 'the rewrite of the adjacency entries is not in a recognised form'))
+        elif not (good and keep):
+            res.append(('rename/edata', False, 'the adjacency entries are rewritten, but not as (vtab[old neighbour], same edge type)'))
         elif ti is None or ti <= ci:
-            ok, msg = False, 'the neighbour rewrite runs before the renaming table is complete'
-    res.append(('rename/edata', ok, msg))
+            res.append(('rename/edata', False, 'the neighbour rewrite runs before the renaming table is complete'))
+        else:
+            cond_extra = [par for par, slot in hir.ancestors(n, pm) if par.get('k') == 'If' and peel(par['cond']).get('k') != 'LetCond' and any(x is par for x in hir.nodes(over['body']))]
+            res.append(('rename/edata', not cond_extra, 'the neighbour rewrite is under an extra condition'))
     # inputs / outputs / any other vertex-bearing field: rewritten from itself through vtab, after the compaction loop
     fields = adt['variants'][0]['fields']
     for name, ty, _vis in fields:
@@ -1587,12 +1659,12 @@ def run(ck):
     # inherent methods other than the helpers must not write the representation
     for be in (VEC, HASH):
         for k, f in facts['fns'].items():
-            if k.startswith(be + '::') and not k.endswith('::remove_half_edge'):
+            if k.startswith(be + '::') and not k.endswith('::remove_half_edge') and f.get('vis') == 'Public':
                 model = Model(facts, be, k)
                 model.total = False
                 evs = [e for n in hir.nodes(f['hir']) for e in model.classify(n) if e.kind != 'borrow']
                 un = model.unclaimed()
-                ck.ob('R-PAIR-repr', k, not evs and not un, ck.site(k), 'inherent method updates the representation outside the GraphLike methods the invariant argument covers (%s)' % ', '.join([repr(e) for e in evs[:3]] + [w for _n, w in un[:3]]))
+                ck.ob('R-PAIR-repr', k, not evs and not un, ck.site(k), 'a PUBLIC inherent method updates the representation outside the GraphLike methods the invariant argument covers (%s)' % ', '.join([repr(e) for e in evs[:3]] + [w for _n, w in un[:3]]))
     # D2
     for be in (VEC, HASH):
         for m in OPTIONAL:
@@ -1613,11 +1685,14 @@ def run(ck):
         if not a and not b:
             continue
         n_cmp += 1
+        if any('unknown' in x[1] for x in a | b):
+            ck.ob3('R-SIB-events', m, None, ck.site(mkey(VEC, m)), 'one back end updates the representation with an operation the abstraction map does not cover')
+            continue
         ck.ob('R-SIB-events', m, a == b, ck.site(mkey(VEC, m)), 'the back ends differ in what `%s` does to the abstract graph: vector %s, hash %s' % (m, sorted(a - b), sorted(b - a)), sample={'neutral': sorted(a)[:3]})
     ck.floor('R-SIB-events', n_cmp, 6)
     for be in (VEC, HASH):
         ok, detail, n = presence_on_err(facts, be)
-        ck.ob('R-SIB-failure', '%s::add_named_vertex_with_data' % be.split('::')[0], ok, ck.site(mkey(be, 'add_named_vertex_with_data')), detail, sample={'err_paths': n})
+        ck.ob3('R-SIB-failure', '%s::add_named_vertex_with_data' % be.split('::')[0], ok, ck.site(mkey(be, 'add_named_vertex_with_data')), detail, sample={'err_paths': n})
         for m in ('edges', 'find_edge'):
             ok, detail = orientation(facts, be, m)
             if ok is None:
@@ -1637,7 +1712,7 @@ def run(ck):
     ck.fn(pk)
     pr = pack_rule(facts, pk, facts['adts'][VEC])
     for slot, ok, msg in pr:
-        ck.ob('R-PAIR-pack', 'vec_graph::pack/' + slot, ok, ck.site(pk), msg)
+        ck.ob3('R-PAIR-pack', 'vec_graph::pack/' + slot, ok, ck.site(pk), msg)
     ck.floor('R-PAIR-pack', len(pr), 10)
     hp = Model(facts, HASH, mkey(HASH, 'pack'))
     hp.total = True
@@ -1681,6 +1756,12 @@ def controls(ck):
         def ob(self, rule, key, ok, site='', msg='', sample=None):
             if not ok:
                 self.bad[key] = msg
+
+        def ob3(self, rule, key, ok, site='', msg='', sample=None):
+            if ok is False:
+                self.bad[key] = msg
+            elif ok is None:
+                self.bad[key] = 'UNDECIDED ' + msg
 
         def site(self, *a):
             return ''
